@@ -34,6 +34,29 @@ fn check_prog(ctx: &mut Ctx, what: &str, prog: &Term, expected: &Term, orders: &
             None => {}
         }
     }
+    // the call the documentation and the theorems are about: the free function `beta` with limit 0.  Issued only for programs whose
+    // capped runs above ended well below the cap, first under the head-spine order (which stops early, at a head normal form), then
+    // under each order of the list: the answer must be the expected encoding whatever was reduced before on this thread
+    if !ctx.thorough || ctx.rng.chance(1, 4) {
+        let pre = format!("beta HSP 0 {}", s(prog));
+        let quick = orders.iter().all(|&o| {
+            let r = ctx.op(&reduce_op(o, 3000, prog));
+            matches!(parse_reduce(&r), Some((c, _)) if c < 3000)
+        });
+        if quick {
+            ctx.op(&pre);
+            for &o in orders {
+                let line = format!("beta {} 0 {}", order_name(o), s(prog));
+                let r = ctx.op(&line);
+                ctx.nontrivial(&line);
+                let mut it = r.split_ascii_whitespace();
+                match crate::codec::dec(&mut it) {
+                    Some(u) if &u == expected => ctx.count("beta_limit0_after_hsp"),
+                    _ => ctx.fail(&format!("{}: beta({}, 0) — called after beta(HSP, 0) on the same program — does not return the expected encoding", what, order_name(o)), &[pre.clone(), line]),
+                }
+            }
+        }
+    }
 }
 
 const LAZY: [Order; 2] = [NOR, HNO];
@@ -770,6 +793,38 @@ pub fn c17(ctx: &mut Ctx) {
                 let mut it2 = pr_.split_ascii_whitespace();
                 if let Some(pi) = crate::codec::dec(&mut it2) {
                     check_eq(ctx, "pi!(i,n) (tuple!(x1..xn)) = xi", &app(pi, tup.clone()), &ts[k - 1]);
+                }
+            }
+        }
+    }
+    // open components.  `tuple!` is a term BUILDER like `abs`: it places its component expressions under the tuple's binder as they
+    // are, so a component that mentions variables from outside is written one level up (its free indices + 1), exactly like the
+    // body handed to `abs`.  The projections then return the component itself (`C17_tuple*_open`)
+    {
+        fn up(t: &Term, d: usize) -> Term {
+            match t {
+                Var(i) => if *i > d { Var(*i + 1) } else { Var(*i) },
+                Abs(b) => abs(up(b, d + 1)),
+                App(p) => app(up(&p.0, d), up(&p.1, d)),
+            }
+        }
+        let xs = [Var(1), Var(5), app(Var(2), abs(app(Var(1), Var(3)))), abs(Var(2)), Var(0), abs(abs(app(Var(4), Var(1))))];
+        for nn in 2..=5usize {
+            let comps: Vec<Term> = (0..nn).map(|k| xs[(k + nn) % xs.len()].clone()).collect();
+            let mut line = format!("tuple {}", nn);
+            for t in &comps {
+                line.push(' ');
+                line.push_str(&s(&up(t, 0)));
+            }
+            let r = ctx.op(&line);
+            let mut it = r.split_ascii_whitespace();
+            if let Some(tup) = crate::codec::dec(&mut it) {
+                for k in 1..=nn {
+                    let pr_ = ctx.op(&format!("pi {} {}", k, nn));
+                    let mut it2 = pr_.split_ascii_whitespace();
+                    if let Some(pi) = crate::codec::dec(&mut it2) {
+                        check_eq(ctx, "pi!(i,n) (tuple!(↑x1..↑xn)) = xi for open components written under the tuple's binder", &app(pi, tup.clone()), &comps[k - 1]);
+                    }
                 }
             }
         }
